@@ -8,6 +8,7 @@ def run(tier, seed):
         deductive=[
             ("c01_step", r"C01\.|\.post\.|no_other_exception|InvalidGradient|ValueError_only"),
             ("c01_rb", None),
+            ("c14_seed", r"C01\.sweep|collect_first|clear_graph_last|sweep_only|constant_receiver"),
         ],
         bounded=[("graph_bounded.py", ["--check", "C01"])],
         trusted=[
